@@ -123,6 +123,13 @@ def judge(case):
         env = M.dec_inputs(case["inputs"][si][ii % len(case["inputs"][si])])
         key = (si, ii % len(case["inputs"][si]))
         got = _canon(sut.call(ev, env))
+        if case.get("debug_toggle"):
+            # the same call while the host has DEBUG logging switched on for everything: nobody listening changes no answer
+            with common.ambient(debug_logging=True):
+                got_dbg = _canon(sut.call(ev, env))
+            if got_dbg != got:
+                viol.append("same source and inputs, different result with DEBUG logging on: %r, with it off: %r (%s) | inputs=%r | %s"
+                            % (got_dbg, got, ctx, common.short_env(env), texts[si]))
         contexts.setdefault(key, set()).add(ctx)
         if key not in table:
             table[key] = got
@@ -223,6 +230,8 @@ CONFIGS = [
     # a working directory full of decoys: files NAMED like the source texts, the experiment names and usual config files, each
     # holding a different valid experiment - what a source text means must not depend on what lies around in the cwd
     {"PYTHONHASHSEED": "5", "LANG": "C.UTF-8", "LC_ALL": "C.UTF-8", "PYTHONUTF8": "1", "cwd": "decoys", "PYAB_CHILD_ORDER": "interleave"},
+    # a working directory that no longer exists (a worker whose release directory was rotated away): os.getcwd() raises there
+    {"PYTHONHASHSEED": "8", "LANG": "C.UTF-8", "LC_ALL": "C.UTF-8", "PYTHONUTF8": "1", "cwd": "vanishing", "PYAB_CHILD_RMCWD": "1"},
 ]
 
 
@@ -238,9 +247,10 @@ def batches(draw, nprog, nconf):
     for text in SHORT_TEXTS:
         for u in range(4):
             items.append({"text": text, "inputs": M.enc_inputs({"uid": "u%d" % u, "plan": "pro"}), "multi": True})
-    confs = draw(st.lists(st.integers(0, len(CONFIGS) - 4), min_size=nconf - 1, max_size=nconf - 1, unique=True))
-    confs.append(len(CONFIGS) - 2 - draw(st.integers(0, 1)))  # always one child in an unwritable working directory
-    confs.append(len(CONFIGS) - 1)  # and one in a directory of decoy files
+    confs = draw(st.lists(st.integers(0, len(CONFIGS) - 5), min_size=nconf - 1, max_size=nconf - 1, unique=True))
+    confs.append(len(CONFIGS) - 3 - draw(st.integers(0, 1)))  # always one child in an unwritable working directory
+    confs.append(len(CONFIGS) - 2)  # one in a directory of decoy files
+    confs.append(len(CONFIGS) - 1)  # and one whose working directory has been deleted
     return {"batch": items, "configs": confs}
 
 
@@ -311,6 +321,9 @@ def judge_batch(case):
             env["PYAB_SRC"] = os.environ.get("PYAB_SRC", "/repo/src")
             env["PYTHONPATH"] = os.pathsep.join([env["PYAB_SRC"], VERIF])
             cwd = tmp if cfg["cwd"] == "tmp" else cfg["cwd"]
+            if cfg["cwd"] == "vanishing":
+                cwd = os.path.join(tmp, "vanishing")
+                os.mkdir(cwd)
             if cfg["cwd"] == "decoys":
                 cwd = os.path.join(tmp, "decoys")
                 _decoys(cwd, sorted({it["text"] for it in items}))
@@ -398,6 +411,18 @@ def attribute_named_histories():
         yield {"sources": [a, b], "inputs": [inputs, inputs], "ops": ops, "plain": True}
 
 
+def logrecord_named_histories():
+    """fields named like attributes of a logging record (name, module, message, process ...), called with DEBUG logging off and on"""
+    names = ["name", "module", "message", "msg", "args", "process", "thread", "created", "filename", "lineno", "levelname", "exc_info", "extra", "asctime"]
+    for k in range(0, len(names), 3):
+        sp = names[k:k + 3]
+        body = M.if_([(M.cmp_(M.ident(sp[-1]), "==", M.lit_str("x")), M.ret([(M.lit_str("a%d" % j), "1") for j in range(8)]))], M.ret([(M.lit_str("b%d" % j), "1") for j in range(8)]))
+        prog = M.program("exp", body, salt="s", splitters=sp[:-1] or sp)
+        inputs = [M.enc_inputs(dict({n: "%s-%d" % (n, j) for n in sp}, **{sp[-1]: ["x", "y"][j % 2], names[(k + 5) % len(names)]: "extra"})) for j in range(6)]
+        ops = [["call", 0, 0, j] for j in range(6)] + [["new", 0, 0, 0]] + [["call", 2, 0, j] for j in range(6)]
+        yield {"sources": [prog, prog], "inputs": [inputs, inputs], "ops": ops, "plain": True, "debug_toggle": True}
+
+
 def neighbour_histories():
     """two sources that differ only in blanks / after a // / in letter case inside a string: an evaluator cycled A -> B -> A
     must agree with fresh evaluators of A and of B at every stage"""
@@ -430,6 +455,9 @@ def run(ctx, rec):
         if rec.violations:
             return
         runner.direct_run(ctx, rec, "experiments-named-like-evaluator-attributes", attribute_named_histories(), judge)
+        if rec.violations:
+            return
+        runner.direct_run(ctx, rec, "fields-named-like-log-record-attributes", logrecord_named_histories(), judge)
         if rec.violations:
             return
     runner.hyp_run(ctx, rec, "in-process-histories", histories(), judge, ctx.n(120, 800))
